@@ -7,7 +7,7 @@ ID = "C01"
 PROPS = "Props/C01.v"
 GEN = ["sm2", "sm2sig"]      # curve constants (sm2/p256.go) and default_uid / limits / mode values (sm2/sm2.go)
 LEGS = [{"driver": "c01", "runner": ("sm2", "Extract/ExtractSM2.v", "Sm2_model")}]
-COQ_TIMEOUT = 2400
+COQ_TIMEOUT = 5400
 
 TECHNIQUE = ("Coq proof over an executable model of Sm2Sign / Sign / Sm2Verify / Verify / PublicKey.Verify / ZA / randFieldElement "
              "(for all keys, digests, random streams, byte strings); model tied to /repo by differential runs of the extracted model; "
